@@ -40,4 +40,30 @@ def create_build_finer_grid_fun(epsilon: float, maturity: float):
 
             return aug_jump_times, aug_fine_js, aug_coarse_js
 
-    return _build_finer_grid_default if epsilon >= maturity else _build_finer_grid
+    build_finer_grid = (
+        _build_finer_grid_default if epsilon >= maturity else _build_finer_grid
+    )
+
+    def _build_finer_grid_up_to_maturity(
+        self, jump_times, fines_states_values, coarse_states_values
+    ):
+        """The step from the last jump (or from 0 when there is no jump) to the maturity is refined like any other one:
+        the maturity is appended as a point repeating the last values, the grid is refined, and the point is dropped
+        again as `simulate_one_path_with_coupling` appends it.
+        """
+
+        def with_last_value(values):
+            if jump_times.size == 0:
+                # no jump: empty values, shaped (0,) in dimension one and (dimension, 0) otherwise
+                return np.zeros(shape=np.shape(values)[:-1] + (1,))
+            return np.concatenate((values, values[..., -1:]), axis=-1)
+
+        aug_jump_times, aug_fine_js, aug_coarse_js = build_finer_grid(
+            self,
+            np.append(jump_times, maturity),
+            with_last_value(fines_states_values),
+            with_last_value(coarse_states_values),
+        )
+        return aug_jump_times[:-1], aug_fine_js[..., :-1], aug_coarse_js[..., :-1]
+
+    return _build_finer_grid_up_to_maturity
